@@ -43,6 +43,12 @@ TEXT.update({
     "C07": ("exactly-once delivery monitor for par_join (per-index counters, index->thread partition signatures) against the sequential-join oracle; TSan on the same runs",
             "Each worker reports (index, component ids, rayon thread index); after the parallel join every index of the sequential intersection must have been delivered exactly once, each item must carry that index's own components, and all writes made by workers must be visible in the storages. Pool sizes 1-64 and seeded per-item delays vary the split tree, which is observed (distinct partition signatures) but not controlled. Thorough adds ThreadSanitizer.",
             "3.C07"),
+    "C16": ("order-sensitive accumulation model (amount = sequence, += appends) + ledger for by-value consumption, structural hook on the change set's dense storage",
+            "After every collect / extend / add / clear the change set's mask and every accumulated sequence must equal the per-entity fold in arrival order; shared, mutable, by-value (complete and partial) joins, alone and with storages and entities, must pair each sum with its own entity exactly once; the ledger shows every amount is yielded or destroyed exactly once.",
+            "3.C16"),
+    "C19": ("fault enumeration of panicking destructors with a destruction ledger, exposure checks (join / lookup / slice views) and a re-synchronised model for continued use",
+            "The k-th in-world destructor call of the operation panics once (instrumented Drop); after catch_unwind the ledger must show no value destroyed twice, everything the world still exposes must be ledger-live, the world must keep behaving like a map re-synchronised from what it exposes, and its teardown must not destroy anything twice. Leaks after a panic are allowed, as the property says.",
+            "3.C19"),
     "C11": ("overlap monitor (per-storage reader/writer counters, logical-clock intervals, torn-write tokens) inside generated systems + borrow-state probe of SystemData declarations",
             "Random system graphs are dispatched on pools of 1-32 threads; each system updates atomic reader/writer counters for exactly the storages it holds, writes and re-validates unique tokens, and stamps enter/exit from a logical clock; after each dispatch exactly-once, conflict-pair disjointness, dependency, barrier and thread-local order are checked, panics escaping dispatch are violations, and for each storage handle type the real borrow state after fetch() is compared with reads()/writes(). Thorough adds ThreadSanitizer.",
             "3.C11"),
